@@ -56,9 +56,8 @@ func (fs *FS) addMount(p string, mountFS hackpadfs.FS) error {
 	fs.mountMu.Lock()
 	defer fs.mountMu.Unlock()
 
-	dir, base := path.Split(p)
-	parentFS, subPath := fs.Mount(dir) // get this mount point's parent mount, verify dir exists
-	f, err := parentFS.Open(path.Join(subPath, base))
+	parentFS, subPath := fs.Mount(path.Dir(p)) // get this mount point's parent mount, verify dir exists
+	f, err := parentFS.Open(path.Join(subPath, path.Base(p)))
 	if err != nil {
 		return err
 	}
@@ -90,6 +89,10 @@ func (fs *FS) Mount(path string) (mount hackpadfs.FS, subPath string) {
 }
 
 func (fs *FS) mountPoint(path string) (_ hackpadfs.FS, mountPoint, subPath string) {
+	if !hackpadfs.ValidPath(path) {
+		// not inside any mount. the root FS rejects the invalid path
+		return fs.rootFS, ".", path
+	}
 	var resultPath string
 	resultFS := fs.rootFS
 	fs.mounts.Range(func(key, value interface{}) bool {
